@@ -143,7 +143,7 @@ CHECKS = {
     'C18': (
         'exploration',
         'property-based testing over generated process sets and FIFO interleavings on the harness-owned loop; Process.current() sampled at every user-code point and between callbacks',
-        'Up to 4 generated processes with async steps, gates, launched children, re-entrantly executed processes (nest_asyncio on the harness loop, in dedicated worker processes), call_soon callbacks (also scheduled on the parent from the step of a child), children stepped in the task of the parent, control requests on children, self-pauses, kill/pause requests issued by the process's own hooks during a transition, and a coroutine callback that steps a helper process after its own process has closed run on one loop with staggered starts: current() must be the running process at every step entry, after every await, in every callback, after launch() and after a nested execute(), and in every lifecycle hook the run produces by itself; the harness must see None between callbacks. All pairs (quick) / triples (thorough) of 6 catalogue shapes at 3 start offsets are enumerated.',
+        'Up to 4 generated processes with async steps, gates, launched children, re-entrantly executed processes (nest_asyncio on the harness loop, in dedicated worker processes), call_soon callbacks (also scheduled on the parent from the step of a child), children stepped in the task of the parent, control requests on children, self-pauses, kill/pause requests issued by own hooks of the process during a transition, and a coroutine callback that steps a helper process after its own process has closed run on one loop with staggered starts: current() must be the running process at every step entry, after every await, in every callback, after launch() and after a nested execute(), and in every lifecycle hook the run produces by itself; the harness must see None between callbacks. All pairs (quick) / triples (thorough) of 6 catalogue shapes at 3 start offsets are enumerated.',
         'Construction-time hooks and hooks triggered by external pause/play/kill run in the caller and are not sampled.',
         'DESIGN.md section 3 C18',
     ),
